@@ -29,6 +29,9 @@ type C16Case struct {
 	Ell   int       `json:"ell,omitempty"`  // truncate: 0 default, 1 true, 2 false
 	Then  string    `json:"then,omitempty"` // a second directive chained after the first ("" = none)
 	JS    bool      `json:"js,omitempty"`   // check the JavaScript counterpart instead of the Go directive
+	// InLoop: the print command runs in the second iteration of a loop, after an iteration with another
+	// value and another limit; the limit is an expression over the loop variable
+	InLoop bool `json:"in_loop,omitempty"`
 }
 
 var c16Pieces = []string{"a", "b", " ", "  ", "\n", "\r\n", "\r", "\t", "&", "<", ">", "\"", "'", "&lt;", "&amp;", "&#39;", "<b>", "</b>", "<a href=\"x\">", "é", "ü", "日本語", "𝄞", "\U0010FFFF", "%", "+", "/", "?", "=", "#", "~", "-", "_", ".", "!", "*", "(", ")", "\\", " ", " ", "</script>", "\x00", "\x01", "\x7f", "word", "averyveryverylongwordwithoutanyspaces", "%41", "%zz", "{", "}", ";", ":", "@", ",", "$", "[", "]", "|", "^", "`"}
@@ -66,6 +69,7 @@ func genC16(t *rapid.T) C16Case {
 		}
 		c.Ell = rapid.IntRange(0, 2).Draw(t, "ell")
 	}
+	c.InLoop = !c.JS && rapid.IntRange(0, 3).Draw(t, "inLoop") == 0
 	if rapid.IntRange(0, 4).Draw(t, "chain") == 0 && c.Dir == "truncate" && !c.JS {
 		c.Then = rapid.SampledFrom([]string{"escapeUri", "escapeJsString", "changeNewlineToBr", "escapeHtml"}).Draw(t, "then")
 	}
@@ -92,6 +96,9 @@ func (c C16Case) directives() []ref.Directive {
 
 // applyGo renders {$x|directives} in a template with autoescaping off.
 func applyGo(c C16Case) (string, error) {
+	if c.InLoop && (c.Dir == "truncate" || c.Dir == "insertWordBreaks") {
+		return applyGoInLoop(c)
+	}
 	p := ref.Program{Files: []ref.File{{Name: "d.soy", Namespace: "d", Autoescape: "false", Templates: []ref.Template{{Name: "t", Params: []ref.ParamDecl{{Name: "x"}},
 		Body: []ref.Cmd{{K: "print", Expr: varE("x"), Directives: c.directives()}}}}}}}
 	names, srcs := gen.Sources(&p)
@@ -107,6 +114,42 @@ func applyGo(c C16Case) (string, error) {
 		return "", fmt.Errorf("render failed: %v", trunc(rr.err.Error(), 300))
 	}
 	return rr.out, nil
+}
+
+const c16Sep = "⟦sep-7f3a⟧"
+
+func applyGoInLoop(c C16Case) (string, error) {
+	it := func(k string) *ref.Expr {
+		return &ref.Expr{Op: "ref", Name: "it", Access: []ref.Access{{Kind: "key", Key: k}}}
+	}
+	ds := c.directives()
+	ds[0].Args[0] = &ref.Expr{Op: "+", Args: []*ref.Expr{it("w"), intE(0)}}
+	p := ref.Program{Files: []ref.File{{Name: "d.soy", Namespace: "d", Autoescape: "false", Templates: []ref.Template{{Name: "t", Params: []ref.ParamDecl{{Name: "items"}},
+		Body: []ref.Cmd{{K: "for", Style: 1, Var: "it", Expr: varE("items"), Body: []ref.Cmd{{K: "print", Expr: it("v"), Directives: ds}, {K: "text", Text: c16Sep}}}}}}}}}
+	names, srcs := gen.Sources(&p)
+	cb, err, pn := compileBundle(names, srcs, nil)
+	if err != nil || pn != nil {
+		return "", fmt.Errorf("compile: %v %v", err, pn)
+	}
+	decoyW := c.Arg + 5
+	if c.Arg > 6 {
+		decoyW = c.Arg / 2
+	}
+	items := ref.L(ref.M(map[string]ref.Value{"v": ref.S("decoy value, long enough to be cut"), "w": ref.I(int64(decoyW))}),
+		ref.M(map[string]ref.Value{"v": c.Value, "w": ref.I(int64(c.Arg))}))
+	rr := cb.render("d.t", map[string]ref.Value{"items": items}, nil, false)
+	if rr.panicked != nil {
+		return "", fmt.Errorf("render panicked: %v", rr.panicked)
+	}
+	if rr.err != nil {
+		return "", fmt.Errorf("render failed: %v", trunc(rr.err.Error(), 300))
+	}
+	out := strings.TrimSuffix(rr.out, c16Sep)
+	i := strings.Index(out, c16Sep)
+	if i < 0 || !strings.HasSuffix(rr.out, c16Sep) {
+		return "", fmt.Errorf("render of the loop lost a separator: %q", trunc(rr.out, 300))
+	}
+	return out[i+len(c16Sep):], nil
 }
 
 func jsStr(s string) string { b, _ := json.Marshal(s); return string(b) }
